@@ -5,6 +5,7 @@ from driver import Leg
 #   regress|raw|unbounded-recursion-per-chunk        RawDataMessageIOGateway::DoInputImplementation recursed once per delivered min-size chunk
 #   regress|fanout|reuse-tag|zlib-dependent-stream   a Message tagged by OptimizeMessageForTransmissionToMultipleGateways() was sent with another
 #   regress|fanout|reuse-tag|templating-format       gateway's state-dependent bytes (dependent zlib stream / templating format and template cache)
+#   regress|tmpl|template-hash-collision             TemplatingMessageIOGateway used the template of a differently laid-out Message with the same TemplateHashCode64() (F60)
 
 
 def _o(**kw):
@@ -53,13 +54,16 @@ _pipe_min.update({'zero_byte_reads': 50000, 'zero_byte_writes': 5000, 'rb_m8_hdr
                   'countedraw_checks': 50000, 'countedraw_checks_with_2plus_queued': 1000, 'text_end_of_stream_seen': 150, 'text_unterminated_last_lines': 80,
                   'telnet_commands': 1500, 'telnet_subnegotiations': 700, 'telnet_high_bit_bytes': 600, 'text_cases_with_other_eol_string': 21,
                   'resets_midstream': 250, 'resets_at_quiescence': 400, 'resets_msg': 150, 'resets_tmpl': 100, 'resets_counted': 10, 'resets_text': 4, 'resets_textforeign': 50,
-                  'resets_raw': 80, 'resets_slip': 10, 'resets_ws': 60, 'resets_wsforeign': 4, 'resets_fanout': 40})
+                  'resets_raw': 80, 'resets_slip': 10, 'resets_ws': 60, 'resets_wsforeign': 4, 'resets_fanout': 40,
+                  # templating: layouts with EQUAL TemplateHashCode64() (computed in the harness) sent within one sequence, all seven recipes
+                  'template_hash_collisions_sent': 300, 'template_hash_collision_groups': 200, 'collide_recipe0_groups': 30, 'collide_recipe1_groups': 30, 'collide_recipe2_groups': 30,
+                  'collide_recipe3_groups': 30, 'collide_recipe4_groups': 30, 'collide_recipe5_groups': 20, 'collide_recipe6_groups': 20})
 
 SPEC = dict(
     level='exploration',
     design_ref='DESIGN.md section 3, C03 (and 2.4 scripted transports: harness/chopio.h)',
     rule=("pipe: one case = (gateway config, Message sequence, schedule): 39 configs (MessageIOGateway in each of the 10 encodings, encoding switched mid-stream, "
-          "CountedMessageIOGateway, TemplatingMessageIOGateway LRU 200 B / 2 KiB / 1 MiB x {plain, zlib} with repeating / alternating / cycling / evicting shapes, "
+          "CountedMessageIOGateway, TemplatingMessageIOGateway LRU 200 B / 2 KiB / 1 MiB x {plain, zlib} with repeating / alternating / cycling / evicting shapes and groups of layouts with EQUAL TemplateHashCode64() (7 recipes), "
           "PlainText muscle->muscle and foreign CR / LF / CRLF text, RawData min-chunk 0/1/7/4096, SLIP dense in END/ESC, WebSocket client<->server {handshake, none} x "
           "{slave MessageIOGateway, built-in text/binary} with payloads around 125/126/65535/65536, a foreign RFC 6455 peer with fragmented masked frames, C Mini/Micro "
           "gateways <-> C++ in four directions; ONE MessageRef, tagged by OptimizeMessageForTransmissionToMultipleGateways() or not, queued on 2-4 sender gateways "
@@ -86,10 +90,10 @@ SPEC = dict(
     legs=[
         Leg('regress', 'h_gwpipe', 'asan', opts=_o(mode='regress'), quick=1, thorough=1, workers=1, leaks=True, min_cases=1),
         Leg('pipe', 'h_gwpipe', 'asan', opts={'mode': 'pipe'}, quick=len(_CFGS) * 60 * 3, thorough=len(_CFGS) * 3000 * 3, workers=16, leaks=True),
-        Leg('sweep', 'h_gwpipe', 'asan', opts={'mode': 'sweep'}, quick=250000, thorough=880000, workers=16, leaks=True),
+        Leg('sweep', 'h_gwpipe', 'asan', opts={'mode': 'sweep'}, quick=255000, thorough=880000, workers=16, leaks=True),
         Leg('memcheck', 'h_gwpipe', 'plain', opts={'mode': 'pipe', 'short': '1'}, quick=len(_CFGS) * 3 * 4, thorough=len(_CFGS) * 3 * 80, workers=16, valgrind=True),
     ],
     min_stats={'pipe': _pipe_min, 'sweep': {'sweep_read_cut_cases': 90000, 'sweep_write_cut_cases': 90000, 'cut_m8_hdr3': 50, 'cut_m8_at2048': 10, 'cut_line_between_cr_lf': 1, 'cut_slip_after_esc': 1, 'cut_ws_hdr1': 10, 'cut_ws_http_mid': 100},
-               'regress': {'regress_replayed_cases': 70, 'regress_zero_byte_reads': 4, 'regress_raw_burst_chunks': 100000, 'regress_reuse_tag_lanes_ok': 5, 'regress_telnet_cut_positions': 20}},
+               'regress': {'regress_replayed_cases': 70, 'regress_zero_byte_reads': 4, 'regress_raw_burst_chunks': 100000, 'regress_reuse_tag_lanes_ok': 5, 'regress_telnet_cut_positions': 20, 'regress_template_collision_pairs': 2, 'regress_template_collision_recipes': 7}},
     post=_post, extra_coverage=_extra,
 )
